@@ -1141,6 +1141,96 @@ pub fn units() -> Vec<Unit> {
             Fn("JoinChannels::get_next_channel"),
         ],
     },
+    // ---- builder F (tie A for the framing step of the five other `CommandHandler` sets, C03): as `Gen.MacCmdFn`, for
+    // `UplinkMacCommand`, the TS009 certification sets and the TS005 multicast sets, with the hand-written `len()` helpers
+    // of the variable-length payloads (`min_len`, `len`, `required_len`) translated from the source.  The macro file is LAST.
+    Unit {
+        module: "Gen.MacCmdFnUplinkMacCommand",
+        file: "lorawan-encoding/src/maccommands.rs",
+        more_files: vec!["lorawan-macros/src/lib.rs"],
+        imports: vec![],
+        items: vec![
+            CustomMulti(crate::maccmd_sets::payloads_uplink_mac),
+            EnumData("UplinkMacCommand"),
+            EnumData("ParseError"),
+            StructPartial("MacCommands", &["data", "errored"]),
+            CustomMulti(crate::maccmd_sets::framing_uplink_mac),
+        ],
+    },
+    Unit {
+        module: "Gen.MacCmdFnDownlinkDUTCommand",
+        file: "lorawan-encoding/src/certification.rs",
+        more_files: vec!["lorawan-encoding/src/maccommands.rs", "lorawan-macros/src/lib.rs"],
+        imports: vec![],
+        items: vec![
+            CustomMulti(crate::maccmd_sets::payloads_downlink_dut),
+            Fn("TxFramesCtrlReqPayload::min_len"),
+            Fn("TxFramesCtrlReqPayload::len"),
+            Fn("EchoIncPayloadReqPayload::min_len"),
+            Fn("EchoIncPayloadReqPayload::len"),
+            EnumData("DownlinkDUTCommand"),
+            EnumData("ParseError"),
+            StructPartial("MacCommands", &["data", "errored"]),
+            CustomMulti(crate::maccmd_sets::framing_downlink_dut),
+        ],
+    },
+    Unit {
+        module: "Gen.MacCmdFnUplinkDUTCommand",
+        file: "lorawan-encoding/src/certification.rs",
+        more_files: vec!["lorawan-encoding/src/maccommands.rs", "lorawan-macros/src/lib.rs"],
+        imports: vec![],
+        items: vec![
+            CustomMulti(crate::maccmd_sets::payloads_uplink_dut),
+            Fn("EchoIncPayloadAnsPayload::min_len"),
+            Fn("EchoIncPayloadAnsPayload::len"),
+            EnumData("UplinkDUTCommand"),
+            EnumData("ParseError"),
+            StructPartial("MacCommands", &["data", "errored"]),
+            CustomMulti(crate::maccmd_sets::framing_uplink_dut),
+        ],
+    },
+    Unit {
+        module: "Gen.MacCmdFnDownlinkRemoteSetup",
+        file: "lorawan-encoding/src/multicast/mod.rs",
+        more_files: vec!["lorawan-encoding/src/maccommands.rs", "lorawan-macros/src/lib.rs"],
+        imports: vec![],
+        items: vec![
+            CustomMulti(crate::maccmd_sets::payloads_downlink_remote),
+            EnumData("DownlinkRemoteSetup"),
+            EnumData("ParseError"),
+            StructPartial("MacCommands", &["data", "errored"]),
+            CustomMulti(crate::maccmd_sets::framing_downlink_remote),
+        ],
+    },
+    Unit {
+        module: "Gen.MacCmdFnUplinkRemoteSetup",
+        file: "lorawan-encoding/src/multicast/mod.rs",
+        more_files: vec!["lorawan-encoding/src/multicast/group_status.rs", "lorawan-encoding/src/maccommands.rs", "lorawan-macros/src/lib.rs"],
+        imports: vec!["LoraVerif.RtBits"],
+        items: vec![
+            CustomMulti(crate::maccmd_sets::payloads_uplink_remote),
+            Newtype("McGroupStatusItem"),
+            Fn("McGroupStatusItem::len"),
+            Fn("McGroupStatusAnsPayload::required_len"),
+            Fn("McGroupStatusAnsPayload::len"),
+            EnumData("UplinkRemoteSetup"),
+            EnumData("ParseError"),
+            StructPartial("MacCommands", &["data", "errored"]),
+            CustomMulti(crate::maccmd_sets::framing_uplink_remote),
+        ],
+    },
+    // ---- builder F (tie A for the creators, C19): the derive-generated creators and the hand-written setters
+    Unit {
+        module: "Gen.MacCmdCreatorFn",
+        file: "lorawan-encoding/src/maccommandcreator.rs",
+        more_files: vec!["lorawan-encoding/src/maccommands.rs", "lorawan-macros/src/lib.rs"],
+        imports: vec!["LoraVerif.RtBits"],
+        items: vec![
+            CustomMulti(crate::maccmd::payloads),
+            CustomMulti(crate::maccmd_sets::payloads_uplink_mac),
+            CustomMulti(crate::maccmd_creators::creators),
+        ],
+    },
     ]
 }
 
